@@ -44,6 +44,10 @@ struct Case {
     body: VShape,
     flavour: Flavour,
     entry: Entry,
+    /// named fields are raw identifiers
+    raw: bool,
+    /// the trait sits in a SECOND stacked `#[derive_ex(..)]` list
+    stacked: bool,
 }
 
 fn gen(ch: &mut Ch, thorough: bool) -> Option<Case> {
@@ -62,6 +66,14 @@ fn gen(ch: &mut Ch, thorough: bool) -> Option<Case> {
     let body = ch.of(&bodies).clone();
     let flavour = *ch.of(&[Flavour::Fm, Flavour::GenericFm, Flavour::WrapI8]);
     let entry = *ch.of(&Entry::BOTH);
+    let raw = ch.flag();
+    let stacked = ch.flag();
+    if raw && !(body.kind == SKind::Named && body.n == 2 && flavour == Flavour::Fm && entry == Entry::Attr && !stacked) {
+        return None;
+    }
+    if stacked && !(body.n == 2 && body.kind == SKind::Tuple && flavour == Flavour::Fm) {
+        return None;
+    }
     if flavour != Flavour::Fm && body.n == 0 {
         return None;
     }
@@ -80,7 +92,7 @@ fn gen(ch: &mut Ch, thorough: bool) -> Option<Case> {
     if !thorough && entry == Entry::Derive && !(body.n == 2 && body.kind == SKind::Named && flavour == Flavour::Fm) {
         return None;
     }
-    Some(Case { vector: ch.vector(), op, body, flavour, entry })
+    Some(Case { vector: ch.vector(), op, body, flavour, entry, raw, stacked })
 }
 
 /// wrapping i8 reference semantics
@@ -112,6 +124,13 @@ fn fm_val(k: usize, fi: usize) -> String {
 }
 
 fn build(c: &Case, tier: &str) -> XCase {
+    set_raw_field_names(c.raw);
+    let r = build_inner(c, tier);
+    set_raw_field_names(false);
+    r
+}
+
+fn build_inner(c: &Case, tier: &str) -> XCase {
     let sh = Shape { is_enum: false, variants: vec![c.body.clone()] };
     let n = c.body.n;
     let fty = match c.flavour {
@@ -123,9 +142,10 @@ fn build(c: &Case, tier: &str) -> XCase {
     let noattrs = |_: usize, _: usize| Vec::new();
     let item = sh.item(if c.flavour == Flavour::GenericFm { "<T>" } else { "" }, &ty, &noattrs);
     let tr = c.op.trait_name();
+    let lists = if c.stacked { format!("#[derive_ex(Clone)]\n#[derive_ex({tr})]") } else { format!("#[derive_ex({tr})]") };
     let head = match c.entry {
-        Entry::Attr => format!("#[derive_ex({tr})]"),
-        Entry::Derive => format!("#[derive(Ex)]\n#[derive_ex({tr})]"),
+        Entry::Attr => lists,
+        Entry::Derive => format!("#[derive(Ex)]\n{lists}"),
     };
     let selfty = if c.flavour == Flavour::GenericFm { "X<Fm>" } else { "X" };
     let is_int = c.flavour == Flavour::WrapI8;
@@ -213,8 +233,10 @@ fn build(c: &Case, tier: &str) -> XCase {
     atoms.insert(format!("entry={}", c.entry.name()));
     atoms.insert(format!("flavour={:?}", c.flavour));
     atoms.insert(format!("body={}", sh.describe()));
+    atoms.insert(format!("raw={}", c.raw));
+    atoms.insert(format!("stacked={}", c.stacked));
     XCase {
-        text: format!("{} {} {}", c.entry.name(), tr, item.print()),
+        text: format!("{} {}{} {}", c.entry.name(), if c.stacked { "stacked " } else { "" }, tr, item.print()),
         code: s,
         expected: exp,
         atoms,
